@@ -203,6 +203,43 @@ MANIFEST_TEXT["C12"] = {
     "technique": "runtime robustness monitor (panic/hang monitors + structural result validator) under grammar-based and mutation fuzzing",
 }
 
-META["C11"] = {"level": "exploration", "rule": "placeholder", "budget": {"quick": 100, "thorough": 1200}, "floors": {"quick": {"evaluations": 2000, "distinct": 20}}, "assumptions": COMMON_ASSUMPTIONS}
-
-META["C17"] = {"level": "exploration", "rule": "placeholder", "budget": {"quick": 100, "thorough": 900}, "floors": {"quick": {"evaluations": 1000, "distinct": 20}}, "assumptions": COMMON_ASSUMPTIONS}
+META["C11"] = {
+    "level": "exploration",
+    "rule": "Sequences of 30 (quick) / 60 requests against a database with 1/2/4/8 workers, memory-only or on disk, holding a two-partition table with one column per encoding plus a single-partition canary table: each step is a valid query or a failing request (108 requests: unparsable SQL, type errors, integer overflow, division by zero, every unsupported construct of the C12 list, unknown table, LIMIT/OFFSET beyond the table, aggregates over nothing, wrong arity, bad regex), issued from 1..8 client threads at once. After EVERY failing request: the canary query must return its known answer; every third time a worker census (as many single-partition queries as there are workers are held simultaneously at the query:before_partition sync point - possible iff that many workers are alive); with probability 0.3 an ingestion + force_flush + table_stats + mem_tree must return; at the end all acknowledged rows must be present. Liveness = the guard's progress rule (no CPU progress for 8 s while a call is pending, or a pending call after a database thread panicked). A request that kills a worker is reported by the panic monitor with its site (and the pool is restored with LocustDB::recover so the sequence continues). One evaluation = one request or follow-up judged. Distinct non-trivial = distinct (worker count, client count, failing request) after which a full census succeeded.",
+    "budget": {"quick": 100, "thorough": 1200},
+    "floors": {"quick": {"evaluations": 3000, "distinct": 150, "counters": {"failing_requests": 600, "censuses": 200, "flushes_after_failing_request": 150}}},
+    "assumptions": COMMON_ASSUMPTIONS + ["'Always returns' is restated as bounded progress; a livelock that keeps burning CPU without any recorded panic would be reported inconclusive, not violated."],
+}
+MANIFEST_TEXT["C11"] = {
+    "level_text": "Service-continuity monitor: thousands of failing requests are mixed with valid ones from concurrent clients; after each failure a canary answer, a worker census through the sync-point hook, flush/ingest/statistics calls and the panic/poison/progress monitors decide whether the database was damaged.",
+    "design_ref": "DESIGN.md section 3, C11",
+    "level_note": "Liveness is bounded progress. Requests known to kill a worker at listed sites are known findings (the census itself is only evaluated after requests that returned an error value).",
+    "technique": "runtime service-continuity monitor: canary + worker census via sync hook + panic/poison/progress monitors under failing-request sequences",
+}
+META["C15"] = {
+    "level": "exploration",
+    "rule": "Per case five table names out of a hostile list (case triple plain/Plain/PLAIN, '.', '..', '../escape', '../../escape2', 'a/b', '/abs', dotted, leading dots/dash, non-ASCII, spaces, 300-byte names differing in the last byte, ';', backslash) each receive two batches whose columns are subsets of the C13 name pool plus 8 random names (ASCII/upper/non-ASCII/spaces/dots/slashes), each batch flushed, sub-partition size limit in {1 byte (one column per file), 120, 4096, default}; then a quiescent restart. Every stored column is then read alone on the cold instance (a further restart before 12% of the probes) and must equal the model; never-stored neighbours of stored names (name + '_', name minus last char, upper-cased, names sorting before / after everything) must read all NULL; the number of directories under tables/ must equal the number of tables (user + catalogue); nothing may exist outside <sandbox>/db. Direct lane through the hook wrappers: sanitize_table_name on ~11 000 names (no separator, no leading dot, <= 255 bytes, injective on the observed inputs) and subpartition()/subpartition_key routing of every stored column to the file that contains it for random column sets and size limits. One evaluation = one column read / name / routing judged.",
+    "budget": {"quick": 120, "thorough": 900},
+    "floors": {"quick": {"evaluations": 10000, "distinct": 60, "counters": {"cold_column_reads": 1000, "directory_injectivity_checks": 20, "distinct_names_sanitised": 3000}}},
+    "assumptions": COMMON_ASSUMPTIONS + ["Names containing a double quote or backslash are ingested but not queried (they cannot be written as a quoted SQL identifier)."],
+}
+MANIFEST_TEXT["C15"] = {
+    "level_text": "Differential monitor per column on cold instances over hostile table / column names and every sub-partition size regime, plus directory census (injectivity, containment) and a direct enumeration lane over the engine's own naming / routing functions through the hook wrappers.",
+    "design_ref": "DESIGN.md section 3, C15",
+    "level_note": "Name pools are fixed lists plus seeded random names; injectivity is checked on the observed inputs only.",
+    "technique": "runtime differential monitor (column-at-a-time cold reads vs model) + file-system census + direct monitors on hooked naming/routing functions",
+}
+META["C17"] = {
+    "level": "exploration",
+    "rule": "An in-process HTTP server (server::run on a free local port) and the embedded API share one database. Per case: three batches of a table with one column per encoding are sent through /insert_bin as capnp wire messages on a pool of 1/2/8 keep-alive connections (plain std::net::TcpStream HTTP/1.1 client, no code of the system under test), interleaved with queries and a flush; then 13 queries covering result kinds Int, Float, String, Null (unknown column), Mixed (nullable int / float / string), ints beyond 2^53, aggregates, ORDER BY/LIMIT, SELECT * are each answered by /query (rows JSON), /query_cols (columns JSON), /multi_query_cols as JSON, as binary, as binary with XOR float compression and as binary with XOR + a mantissa out of {0,3,10,23,52} + one full-precision column, and compared cell by cell with embedded run_query on the same database (JSON: integers exact, floats within 4e-16 relative because the client-side JSON parser is not exactly round-tripping, non-finite -> null; binary: bit-exact, NULL = reserved NaN, reduced mantissa keeps sign/exponent/leading bits). 7 failing queries x 3 endpoints must be answered with a 4xx/5xx status and the next request on the same connection pool must succeed. One evaluation = one HTTP answer judged.",
+    "budget": {"quick": 100, "thorough": 900},
+    "floors": {"quick": {"evaluations": 3000, "distinct": 60, "counters": {"failing_queries_answered_with_error_status": 300, "inserts_ok": 60},
+                         "sets": {"embedded_column_kinds_compared": ["Int", "Float", "String", "Null", "Mixed"]}}},
+    "assumptions": COMMON_ASSUMPTIONS + ["The embedded answer is taken immediately after the HTTP answer on a quiescent database (no concurrent writer during a comparison)."],
+}
+MANIFEST_TEXT["C17"] = {
+    "level_text": "Differential monitor between the real HTTP server (all three query endpoints, JSON and the three binary encodings) and the embedded API on the same database instance, with inserts through the binary endpoint, a connection pool, and failing queries that must map to error statuses without stopping the server.",
+    "design_ref": "DESIGN.md section 3, C17",
+    "level_note": "Client is an independent minimal HTTP/1.1 implementation; JSON float comparison tolerates the client parser's last-bit error.",
+    "technique": "runtime differential monitor HTTP vs embedded API + error-status / continued-service monitor",
+}
